@@ -553,6 +553,10 @@ mod internal {
                 self.info
                     .reset_to_prev_iterate(&mut self.variables, &self.prev_vars);
 
+                // the residuals must describe the restored iterate as well: the
+                // final (reduced tolerance) convergence check reads them
+                self.residuals.update(&self.variables, &self.data);
+
                 // If problem is asymmetric, we can try to continue with the dual-only strategy
                 if !self.cones.is_symmetric() && (scaling == ScalingStrategy::PrimalDual) {
                     self.info.set_status(SolverStatus::Unsolved);
